@@ -60,6 +60,24 @@ pub struct InjectState {
 	pub fired: bool,
 	/// length of last stored tx file (for torn-write enumeration)
 	pub last_store_len: usize,
+	/// livelock guard: remaining backend calls (iter/batch/next_child) before the
+	/// decorator unwinds; None = unlimited
+	pub budget: Option<i64>,
+}
+
+/// message of the livelock-guard panic
+pub const BUDGET_MSG: &str = "gwv: backend call budget exhausted (livelock guard)";
+
+fn spend(st: &Inj) {
+	let mut s = st.lock().unwrap();
+	if let Some(b) = s.budget.as_mut() {
+		*b -= 1;
+		if *b < 0 {
+			s.budget = None;
+			drop(s);
+			panic!("{}", BUDGET_MSG);
+		}
+	}
 }
 
 impl InjectState {
@@ -148,6 +166,7 @@ impl WalletBackend<'static, DirectClient, ExtKeychain> for Injecting {
 		self.inner.parent_key_id()
 	}
 	fn iter<'a>(&'a self) -> Box<dyn Iterator<Item = OutputData> + 'a> {
+		spend(&self.st);
 		self.inner.iter()
 	}
 	fn get(&self, id: &Identifier, mmr_index: &Option<u64>) -> Result<OutputData, Error> {
@@ -214,6 +233,7 @@ impl WalletBackend<'static, DirectClient, ExtKeychain> for Injecting {
 		&'a mut self,
 		keychain_mask: Option<&SecretKey>,
 	) -> Result<Box<dyn WalletOutputBatch<ExtKeychain> + 'a>, Error> {
+		spend(&self.st);
 		let st = self.st.clone();
 		let inner = self.inner.batch(keychain_mask)?;
 		Ok(Box::new(IBatch {
@@ -237,6 +257,7 @@ impl WalletBackend<'static, DirectClient, ExtKeychain> for Injecting {
 		self.inner.current_child_index(parent_key_id)
 	}
 	fn next_child(&mut self, keychain_mask: Option<&SecretKey>) -> Result<Identifier, Error> {
+		spend(&self.st);
 		let f = effect(&self.st, EffectKind::NextChild)?;
 		let parent = self.inner.parent_key_id();
 		let r = self.inner.next_child(keychain_mask)?;
